@@ -424,3 +424,84 @@ def check_save_restore(db, funcs, rep, rule):
                       "every parked register comes back from where it was put (%d restores)" % judged,
                       "%s: %s -- the generated code continues with swapped or lost register contents" % (f.name, "; ".join(bad)), line=calls[0].line if calls else None)
     return n
+
+
+def _cfmt(fmt, args):
+    """C-style formatting of %d / %x / %s / %% with 32-bit int semantics for the integer conversions."""
+    out, k = [], 0
+    i = 0
+    while i < len(fmt):
+        ch = fmt[i]
+        if ch != "%":
+            out.append(ch)
+            i += 1
+            continue
+        j = i + 1
+        while j < len(fmt) and fmt[j] in "-0123456789.#l":
+            j += 1
+        conv = fmt[j] if j < len(fmt) else ""
+        spec = fmt[i:j + 1]
+        if conv == "%":
+            out.append("%")
+        elif conv in "di":
+            v = args[k]; k += 1
+            v = ((v + 2 ** 31) % 2 ** 32) - 2 ** 31
+            out.append(("%" + spec[1:-1].replace("l", "") + "d") % v)
+        elif conv in "xXu":
+            v = args[k] & 0xffffffff; k += 1
+            out.append(("%" + spec[1:-1].replace("l", "") + conv) % v)
+        elif conv == "s":
+            out.append(str(args[k])); k += 1
+        else:
+            raise AnalysisBroken("unsupported conversion %r in %r" % (spec, fmt))
+        i = j + 1
+    return "".join(out)
+
+
+def check_listing_displacements(db, rep, rule, workdir):
+    """The memory-operand formats of orc_x86_insn_output_asm are instantiated with negative and large displacements and handed
+    to the assembler inside a `movl <operand>, %eax`: each must assemble, to the same bytes as the canonical spelling
+    `<disp>(%base[,%index,scale])`.  (The byte emitter encodes xinsn->offset as a signed value; the listing must say the same.)"""
+    import re
+    from x86ref import assemble
+    f = db.func("orc_x86_insn_output_asm", "orcx86insn")
+    fmts = {}
+    for c in f.calls("sprintf"):
+        a = c.args()
+        lit = strip_casts(a[1])
+        if lit is None or lit.k != "StringLiteral":
+            continue
+        s = lit.get("str", "")
+        if "(" in s and "%s" in s.replace("%%", "") and re.search(r"%[-0-9l]*[dxXu]", s):
+            nargs = len(a) - 2
+            fmts.setdefault((s, nargs), c)
+    if len(fmts) < 2:
+        raise AnalysisBroken("orc_x86_insn_output_asm: memory-operand formats not found")
+    lines, meta = [], []
+    for (s, nargs), c in sorted(fmts.items()):
+        convs = re.findall(r"%[-0-9l#]*([a-zA-Z%])", s)
+        convs = [x for x in convs if x != "%"]
+        for disp in (-1, -129, 300):
+            args, regs = [], ["rdx", "rcx"]
+            sc = 4
+            for cv in convs:
+                if cv in "dixXu":
+                    # first integer is the displacement; a later one (in index forms) is the scale
+                    args.append(disp if not any(isinstance(x, int) for x in args) else sc)
+                else:
+                    args.append(regs.pop(0) if regs else "rax")
+            text = _cfmt(s, args).strip().rstrip(",").strip()
+            strs = [x for x in args if isinstance(x, str)]
+            ref = "%d(%%%s)" % (disp, strs[0]) if len(strs) == 1 else "%d(%%%s,%%%s,%d)" % (disp, strs[0], strs[1], sc)
+            lines += ["movl %s, %%eax" % text, "movl %s, %%eax" % ref]
+            meta.append((s, disp, text, ref, c))
+    out, rejected = assemble(lines, workdir, True, "disp")
+    n = 0
+    for k, (s, disp, text, ref, c) in enumerate(meta):
+        got, want = out[2 * k], out[2 * k + 1]
+        n += 1
+        rep.check(got is not None and got == want, rule, "orc/orcx86insn.c::orc_x86_insn_output_asm", "%r@%d" % (s.strip(), disp),
+                  "`%s` assembles to the displacement %d" % (text, disp),
+                  "the listing spells a memory operand with displacement %d as `%s`: %s (the machine code encodes the signed value)" %
+                  (disp, text, ("the assembler rejects it: " + rejected.get(2 * k, "?")) if got is None else "it assembles to a different operand than `%s`" % ref), line=c.line)
+    return n
